@@ -98,6 +98,10 @@ func ConcatItems[T any](items []T) (T, error) {
 	// handle map kind
 	if typ.Kind() == reflect.Map {
 		cv, err = concatMaps(v)
+	} else if typ.Kind() == reflect.Interface && GetConcatFunc(typ) == nil {
+		// chunks of an interface type are concatenated by their dynamic type, as the
+		// interface-typed values of a map chunk are
+		cv, err = concatInterfaces(v)
 	} else {
 		cv, err = concatSliceValue(v)
 	}
@@ -107,7 +111,36 @@ func ConcatItems[T any](items []T) (T, error) {
 		return t, err
 	}
 
+	if !cv.IsValid() {
+		var t T
+		return t, nil
+	}
+
 	return cv.Interface().(T), nil
+}
+
+// concatInterfaces concatenates the non-nil items by their common dynamic type; the
+// invalid Value stands for "every item is nil".
+func concatInterfaces(vs reflect.Value) (reflect.Value, error) {
+	nonNilVals := make([]any, 0, vs.Len())
+	for i := 0; i < vs.Len(); i++ {
+		if item := vs.Index(i); !item.IsNil() {
+			nonNilVals = append(nonNilVals, item.Interface())
+		}
+	}
+	if len(nonNilVals) == 0 {
+		return reflect.Value{}, nil
+	}
+
+	v, err := toSliceValue(nonNilVals)
+	if err != nil {
+		return reflect.Value{}, err
+	}
+
+	if v.Type().Elem().Kind() == reflect.Map {
+		return concatMaps(v)
+	}
+	return concatSliceValue(v)
 }
 
 func concatMaps(ms reflect.Value) (reflect.Value, error) {
